@@ -2,6 +2,7 @@ import DoitModel.Proofs.C08Data
 import DoitModel.Proofs.C08Confluence
 import DoitModel.Proofs.C08DynConfluence
 import DoitModel.Proofs.C08DynExec
+import DoitModel.Proofs.C08DynStatic
 /-! # C08 — parallel runs are outcome-equivalent to the serial run
 
 Property theorems only.  Models: `Model/Run.lean` (M1, transition systems of the three runners), `Model/RunData.lean`
@@ -17,9 +18,10 @@ DURING its execution (`startedFail`: the actions failed or `save_success` did; d
 a `get_status` / `getargs` error or an unmet dependency is found before any action runs and delivers nothing).  The
 theorems of the second group (`…_dyn`, `C08_confluence`) hold for every input; `Dyn.InvDen.started_iff` is the
 operational link (a failed task has a start event iff its derived outcome is a failure during execution).  The
-theorems of the first group (`NoCalc`, static development `Proofs/C08Conf*.lean`) are still stated under
-`[NoFailDeliver inp]` (`Proofs/Run.lean`: `calcResFail` empty), which is vacuous in spirit there — without calc_dep
-edges nothing is delivered — but the static proofs go through the `deliverF`-free form of `_update_waiting`. -/
+theorems of the first group (`NoCalc`) are corollaries of the second (`Proofs/C08DynStatic.lean`: on graphs without
+calc_dep the two denotations and the two closures coincide), so no theorem of this file carries the former scope
+hypothesis `NoFailDeliver` (`Proofs/Run.lean`: `calcResFail` empty) any more; the static development
+`Proofs/C08Conf*.lean` still uses it internally. -/
 namespace DoitModel.C08
 open DoitModel.Run
 
@@ -115,10 +117,10 @@ reading of "deterministic tasks". -/
     `numProcess`, any interleaving of main and workers, any iteration order of the dispatcher's sets), a finished
     `run_status` is the denotation of the task, and so is every terminal report (`add_success`, `skip_uptodate`,
     `skip_ignore`, `add_failure` with its kind) in the event list. -/
-theorem C08_status_is_den (inp : RunInput) [NoFailDeliver inp] (hnc : NoCalc inp) (s : Sys) (hr : Reach inp s ∨ PReach inp s) (t : Name) :
+theorem C08_status_is_den (inp : RunInput) (hnc : NoCalc inp) (s : Sys) (hr : Reach inp s ∨ PReach inp s) (t : Name) :
     ((stOf s t).finished = true → ∃ d, DenOf inp t d ∧ d.rs = stOf s t) ∧
     (∀ d, (∃ e ∈ s.events, Ev.den? t e = some d) → DenOf inp t d) :=
-  ⟨status_is_den hnc hr t, fun d h => report_is_den hnc hr t d h⟩
+  ⟨DynS.status_is_den hnc hr t, fun d h => DynS.report_is_den hnc hr t d h⟩
 
 /-- the denotation is a function of the task table and the oracle only: it does not depend on runner kind, worker count,
     `--continue`, the selection or teardown/group marks -/
@@ -135,11 +137,11 @@ theorem C08_den_computable (inp : RunInput) (rank : Name → Nat) (hac : Acyclic
 /-- confluence, state-wise: any two reachable states of any two of the transition systems over the same task table
     (`SameTasks`: they may differ in runner, `numProcess`, selection, `--continue`) agree on every task that is finished
     in both, and on every task reported in both -/
-theorem C08_confluence_status (inp1 inp2 : RunInput) [NoFailDeliver inp1] [NoFailDeliver inp2] (hsame : SameTasks inp1 inp2) (hnc : NoCalc inp1) (s1 s2 : Sys)
+theorem C08_confluence_status (inp1 inp2 : RunInput) (hsame : SameTasks inp1 inp2) (hnc : NoCalc inp1) (s1 s2 : Sys)
     (h1 : Reach inp1 s1 ∨ PReach inp1 s1) (h2 : Reach inp2 s2 ∨ PReach inp2 s2) (t : Name) :
     ((stOf s1 t).finished = true → (stOf s2 t).finished = true → stOf s1 t = stOf s2 t) ∧
     (∀ d1 d2, (∃ e ∈ s1.events, Ev.den? t e = some d1) → (∃ e ∈ s2.events, Ev.den? t e = some d2) → d1 = d2) :=
-  ⟨confluent_status hsame hnc h1 h2 t, fun d1 d2 r1 r2 => confluent_report hsame hnc h1 h2 t d1 d2 r1 r2⟩
+  ⟨DynS.confluent_status hsame hnc h1 h2 t, fun d1 d2 r1 r2 => DynS.confluent_report hsame hnc h1 h2 t d1 d2 r1 r2⟩
 
 /-- the exit code of a run that was not ended by an internal error is `final_result` folded over its failure reports,
     and that fold only reads the SET of failure kinds (ERROR sticky, FAILURE only over SUCCESS): no `NoCalc` needed -/
@@ -151,10 +153,10 @@ theorem C08_exit_of_reports (inp : RunInput) (s : Sys) (hr : Reach inp s ∨ PRe
 /-- a complete run (normal end, not stopped: no failure, or `--continue`) reports exactly the denotational closure of
     the selection (`DenCl`: the selection, closed under task_dep and under the setup-tasks of members whose first
     pass says `run`) — each member once (`C02_at_most_once`) -/
-theorem C08_complete_reports_closure (inp : RunInput) [NoFailDeliver inp] (hnc : NoCalc inp) (s : Sys) (hr : Reach inp s ∨ PReach inp s)
+theorem C08_complete_reports_closure (inp : RunInput) (hnc : NoCalc inp) (s : Sys) (hr : Reach inp s ∨ PReach inp s)
     (hend : s.rpc = .halted) (hhalt : s.halt = .none) (hstop : s.stop = false) (t : Name) :
     Reported s t ↔ DenCl inp t :=
-  reported_iff_closure hnc hr hend hhalt hstop t
+  DynS.reported_iff_closure hnc hr hend hhalt hstop t
 
 /-- C08, confluence half, for graphs without calc_dep: two complete runs of the same task table and selection — the
     serial run and a run with any number of worker threads or processes under any interleaving, or any two such runs —
@@ -162,7 +164,7 @@ theorem C08_complete_reports_closure (inp : RunInput) [NoFailDeliver inp] (hnc :
     ignored / failed with the same kind; hence the same `save_success` / `remove_success` DB effects, which are
     attached to exactly these reports), leave the same `run_status` on every task both have finished, and return the
     same exit code. -/
-theorem C08_confluence_partial (inp1 inp2 : RunInput) [NoFailDeliver inp1] [NoFailDeliver inp2] (hsame : SameTasks inp1 inp2)
+theorem C08_confluence_partial (inp1 inp2 : RunInput) (hsame : SameTasks inp1 inp2)
     (hsel : ∀ t, t ∈ inp1.sel ↔ t ∈ inp2.sel) (hnc : NoCalc inp1) (s1 s2 : Sys)
     (h1 : Reach inp1 s1 ∨ PReach inp1 s1) (h2 : Reach inp2 s2 ∨ PReach inp2 s2)
     (e1 : s1.rpc = .halted ∧ s1.halt = .none ∧ s1.stop = false)
@@ -170,14 +172,9 @@ theorem C08_confluence_partial (inp1 inp2 : RunInput) [NoFailDeliver inp1] [NoFa
     (∀ t, Reported s1 t ↔ Reported s2 t) ∧
     (∀ t, reportOf (trace inp1 s1) t = reportOf (trace inp2 s2) t) ∧
     (∀ t, (stOf s1 t).finished = true → (stOf s2 t).finished = true → stOf s1 t = stOf s2 t) ∧
-    exitCode s1 = exitCode s2 := by
-  refine ⟨complete_runs_same_reported hsame hsel hnc h1 h2 e1 e2, ?_, fun t => confluent_status hsame hnc h1 h2 t,
-    complete_runs_same_exit hsame hsel hnc h1 h2 e1 e2⟩
-  intro t
-  have hp := C08_monitor_pair hsame hsel hnc h1 h2 e1 e2 (t + 1)
-  unfold monC08Pair at hp
-  simp only [Bool.and_eq_true, List.all_eq_true, List.mem_range, beq_iff_eq] at hp
-  exact hp.1 t (Nat.lt_succ_self t)
+    exitCode s1 = exitCode s2 :=
+  ⟨DynS.complete_runs_same_reported hsame hsel hnc h1 h2 e1 e2, DynS.complete_runs_same_reportOf hsame hsel hnc h1 h2 e1 e2,
+   fun t => DynS.confluent_status hsame hnc h1 h2 t, DynS.complete_runs_same_exit hsame hsel hnc h1 h2 e1 e2⟩
 
 /-! ## `confluence` for every task graph, dynamic `calc_dep` edges included
 
@@ -347,11 +344,11 @@ example : ∃ s1 s2, Reach { Dyn.exC08calc with runner := .serial, numProc := 0 
 /-- the monitors the driver evaluates on implementation traces hold of the model's own traces: `monC08Den` (reports =
     `denF`, reported set = `denClosure`, exit = `denExit`) for every reachable state of an acyclic calc-free input, and
     `monC08Pair` for any two complete runs -/
-theorem C08_monitors_hold (inp : RunInput) [NoFailDeliver inp] (rank : Name → Nat) (hnc : NoCalc inp) (hac : Acyclic inp rank) (s : Sys)
+theorem C08_monitors_hold (inp : RunInput) (rank : Name → Nat) (hnc : NoCalc inp) (hac : Acyclic inp rank) (s : Sys)
     (hr : Reach inp s ∨ PReach inp s) (nTasks : Nat) (hb : ∀ t, rank t ≤ nTasks) (hlt : ∀ t, DenCl inp t → t < nTasks)
     (complete : Bool) (hc : complete = true → s.rpc = .halted ∧ s.halt = .none ∧ s.stop = false) :
     monC08Den inp nTasks (trace inp s) (exitCode s) complete = true :=
-  C08_monitor_den' hnc hac hr nTasks hb hlt complete hc
+  DynS.C08_monitor_den' hnc hac hr nTasks hb hlt complete hc
 
 /-- non-vacuity: `exC08` (task 1 has the failing setup-task 0 and is reported `unmet` at its second pass; `--continue`)
     has a complete run with two worker threads and a complete serial run, so the hypotheses of
